@@ -99,13 +99,22 @@ def judge(pair, script, impl, model):
 def explore(rng, tier, replay=None):
     n = 2500 if tier == "quick" else 60000
     scripts = [gen_script(rng, 6 + rng.below(24)) for _ in range(n)]
-    return corr.explore(PROP, scripts, judge=judge, signature=signature,
+    ctx = corr.explore(PROP, scripts, judge=judge, signature=signature,
                         rule="random timer histories (state set from a boundary-biased pool incl. non-well-formed "
                              "modes, then ticks / events / restarts / horizon queries / skips chosen relative to the "
                              "reported horizon: 0, 1, h-1, h, random<=h, h+1); `ffcheck` additionally evaluates the "
                              "property on the implementation itself (Skip(k) vs k Ticks). distinct = (op, k class, mode, "
                              "counter zero, paused, outcome) signatures seen in the implementation's answers")
 
+    try:
+        from checks import c12
+        fv, fstats = c12.timing_slice(rng, 150 if tier == "quick" else 4000, PROP)
+        ctx["violations"] = ctx.get("violations", []) + fv
+        ctx["facade_slice"] = fstats
+        ctx["evaluations"] = ctx.get("evaluations", 0) + fstats["facade_scripts"]
+    except RuntimeError as ex:
+        ctx["violations"] = ctx.get("violations", []) + [("facade slice could not run: " + str(ex)[-300:], {"kind": "error", "error": str(ex)[-2000:]}, False)]
+    return ctx
 
 def replay(rep):
     return corr.replay(rep)
